@@ -208,9 +208,12 @@ class PostProcessor:
             cff.charset = [rename_map.get(n, n) for n in cff.charset]
 
     def _build_production_names(self):
-        seen = {}
+        glyphOrder = self.otf.getGlyphOrder()
+        # glyphs that aren't in the source keep their names: reserve these so that
+        # no production name can collide with them
+        seen = {name: 1 for name in glyphOrder if name not in self.glyphSet}
         rename_map = {}
-        for name in self.otf.getGlyphOrder():
+        for name in glyphOrder:
             # Ignore glyphs that aren't in the source, as they are usually generated
             # and we lack information about them.
             if name not in self.glyphSet:
